@@ -100,6 +100,13 @@ inductive Err
   | invalidPath           -- InvalidPathError (4.00)
 deriving DecidableEq, Repr
 
+instance : DecidableEq (Except Err PPath)
+  | .ok a, .ok b => if h : a = b then isTrue (by rw [h]) else isFalse (by intro e; cases e; exact h rfl)
+  | .error a, .error b =>
+    if h : a = b then isTrue (by rw [h]) else isFalse (by intro e; cases e; exact h rfl)
+  | .ok _, .error _ => isFalse (by intro e; cases e)
+  | .error _, .ok _ => isFalse (by intro e; cases e)
+
 /-- `"/" in p or p in (".", "..")` (fileserver.py:125) -/
 def badComp (p : Str) : Bool := p.contains slash || p == dotS || p == dotdotS
 
